@@ -13,8 +13,28 @@ neither.  Every observation reads balance(account_id=a[, network=n]) and utxos(a
 group after the default readings (field "pa"), and the key balances / key groups again after these calls ("kbA",
 "ka").  Destinations: e = external address, o<i> = own key of the sending group, x<i> = own key of any account of
 the sending network.
+
+Several wallets in one database file: nw:<how> creates a further wallet in the SAME sqlite file (s: the same seed /
+keys restored under a second name, o: an unrelated seed, c: for 2-of-2 the cosigner's wallet, which holds the other
+private key) and makes it the current one; w:<i> makes wallet i the current one.  Every operation runs on the
+current wallet through its live Wallet object.  After an operation the current wallet is observed and then every
+other wallet of the file (steps "@obs"); every step carries "wid".
+
+Observation: the FIRST reading after an operation is made through a second Wallet object opened on the file (kind
+flag f: in a forked child process), before any call on the live object: key balances (kbpre), utxos() of every
+group (utxos_pre, pa_pre) and transaction(txid) of every transaction touched since the wallet was last observed
+(txs_pre).  Only then balance() etc. are called on the live object.  An operation written with a trailing "!" is
+NOT followed by an observation: the next operation (or a reopen) comes directly after it.
+
+Further operations: sk:<key>:<dest>:<permille>:<bc>:<mc>  send_to(.., input_key_id=key);
+si:<u>:<dest>:<permille>:<bc>  send(.., input_arr=[the u-th unspent output], fee=..): exactly one chosen output is
+spent; iw:<i>  transaction_import of a transaction created by ANOTHER wallet of the file; dl:<i>  transaction_delete
+of the i-th most recent transaction this wallet created (de:<i> takes the i-th of all known transaction ids).
+Kind flags (after "+"): f  first reading in a forked process; m  the provider answers with SEVERAL outputs per
+transaction id (every address is paid by output <n(address)> of two shared transactions); x  transaction_delete of
+a transaction id which another wallet of the file holds too is attempted (recorded finding delete_shared_txid).
 """
-import sys, os, json, logging, hashlib, random, gc
+import sys, os, json, logging, hashlib, random, gc, re
 sys.path.insert(0, os.path.dirname(os.path.abspath(__file__)))
 logging.disable(logging.CRITICAL)
 import bitcoinlib.wallets as BW
@@ -26,7 +46,10 @@ NW = 'bitcoinlib_test'
 NW2 = 'litecoin'           # second network of a wallet (another BIP44 coin type); its provider is the stub below
 MAX_ACCOUNTS = 3
 MAX_ACCOUNTS_NW2 = 2
+MAX_WALLETS = 3
 LOG = []
+MULTI_OUT = [False]      # kind flag m
+ADDRN = {}               # address -> output number in the shared funding transactions (kind flag m)
 
 
 class RecService(RealService):
@@ -50,6 +73,11 @@ class RecService(RealService):
                       'confirmations': 7, 'output_n': 1, 'index': 0, 'value': 30000000, 'script': ''}]
         else:
             r = RealService.getutxos(self, address, after_txid, limit)
+            if MULTI_OUT[0] and r:
+                # several outputs per transaction id: output n(address) of shared funding transaction j
+                n = ADDRN.setdefault(address, len(ADDRN))
+                r = [dict(u, txid=hashlib.sha256(b'c08-shared-%d' % j).hexdigest(), output_n=n)
+                     for j, u in enumerate(r)]
         LOG.append((address, r))
         return r
 
@@ -80,6 +108,7 @@ def pool_txid(slot):
 
 
 class St:
+    """One wallet of the file.  txids, nws, ext and wallets are shared by the wallets of one history."""
     pass
 
 
@@ -98,9 +127,9 @@ def nwid(st, name):
     return st.nws.index(name)
 
 
-def groups(st):
+def groups(st, w=None):
     """The (network name, account id) groups of the wallet: the wallet's own network first."""
-    w = st.w
+    w = w or st.w
     nws = [NW] + [n for n in w.network_list() if n != NW] if w.scheme == 'bip32' and not w.multisig else [NW]
     return [(nw, a) for nw in nws for a in sorted(w.accounts(network=nw) if nw != NW else w.accounts())]
 
@@ -123,10 +152,19 @@ def gkw(g):
 def filed_account(st, txid, nw):
     """The account under which the wallet lists the transaction (Wallet.transaction(txid).account_id is the
     wallet's default account whatever the row says, so the per-account lists are asked)."""
+    snap(st)
     for g in groups(st):
         if g[0] == nw and any(t.txid == txid for t in st.w.transactions(include_new=True, **gkw(g))):
             return g[1]
     return 0
+
+
+def touch(st, txid):
+    """The transaction id was written to by an operation: every wallet of the file reads it first thing at its
+    next observation."""
+    st.txids.add(txid)
+    for x in st.wallets:
+        x.touched.add(txid)
 
 
 def u_ops(st, rescan, nets, acct, kid, first=None):
@@ -143,15 +181,39 @@ def u_ops(st, rescan, nets, acct, kid, first=None):
                     kk = kid if kid is not None else st.addr[u['address']]
                     if st.keys[kk][3] != nw:
                         continue
-                    st.txids.add(u['txid'])
+                    touch(st, u['txid'])
                     us.append('%d/%s/%d/%d/%d' % (kk, u['txid'], u['output_n'], u['value'], u['confirmations']))
         ops.append('U:%d:%d:%d:%s:%s' % (1 if rescan else 0, nwid(st, nw), acct, '-' if kid is None else str(kid),
                                          ','.join(us) or '-'))
     return ops
 
 
+def snap(st):
+    """The first reading after the library call of an operation: taken through a second Wallet object (or another
+    process) BEFORE the adapter itself touches the live object again (Wallet.keys() etc. end in a commit and would
+    make a pending change durable)."""
+    if st.want_pre and st.pre is None:
+        ids = sorted(st.touched)
+        st.touched = set()
+        st.pre = preread_forked(st, ids) if st.fork else preread(st, ids)
+
+
+def touch_log(st):
+    for (addr, r) in LOG:
+        for u in r:
+            touch(st, u['txid'])
+
+
+def note_tx(st, t, bc):
+    touch(st, t.txid)
+    if bc:
+        for i in t.inputs:
+            touch(st, i.prev_txid.hex())
+
+
 def refresh_keys(st, mops):
     """New DbKey rows since the last look become K ops; keeps the address -> key id map."""
+    snap(st)
     for (kid, addr, acct, depth, nw, kt) in keyrows(st.w):
         if kid not in st.keys:
             st.keys[kid] = (addr, acct, depth, nw)
@@ -174,11 +236,14 @@ def tx_tokens(st, t):
     return ins, outs, raw
 
 
-def tx_view(st, t, full):
-    """Same text the model driver prints for a transaction."""
+def tx_view(st, t, full, defer=False):
+    """Same text the model driver prints for a transaction.  defer: the key id of an output is filled in later
+    (the first reading is taken before the adapter has looked at the keys the operation created)."""
     ins = ','.join('%d/%s/%d/%d' % (i.index_n, i.prev_txid.hex(), i.output_n_int, i.value or 0)
                    for i in sorted(t.inputs, key=lambda i: i.index_n))
-    outs = ','.join('%d/%d/%s/%s' % (o.output_n, o.value, st.addr.get(o.address, '-'), '1' if o.spent else '0')
+    outs = ','.join('%d/%d/%s/%s' % (o.output_n, o.value,
+                                     ('@%s@' % o.address) if defer else st.addr.get(o.address, '-'),
+                                     '1' if o.spent else '0')
                     for o in sorted(t.outputs, key=lambda o: o.output_n))
     s = '%s~%d~%s~%s' % (t.txid, t.confirmations or 0, ins, outs)
     if full:
@@ -186,12 +251,12 @@ def tx_view(st, t, full):
     return s
 
 
-def txs_view(st, w, full):
+def txs_view(st, w, full, ids=None, defer=False):
     r = []
-    for txid in sorted(st.txids):
+    for txid in sorted(st.txids if ids is None else ids):
         t = w.transaction(txid)
         if t is not None:
-            r.append(tx_view(st, t, full))
+            r.append(tx_view(st, t, full, defer))
     return ','.join(sorted(r))
 
 
@@ -220,11 +285,59 @@ def observe_groups(st, w, o):
     o['ka'] = ','.join('%d:%d.%d' % (k.id, nwid(st, k.network_name), k.account_id) for k in sorted(ks, key=lambda k: k.id))
 
 
-def observe(st, full):
+def preread(st, ids):
+    """What a second Wallet object opened on the file reads (nothing is written, the live object is not used)."""
     o = {}
     w2 = open_wallet(st)
     o['kbpre'] = kb_view({k.id: k.balance for k in w2.keys()})
+    o['utxos_pre'] = utxos_view(w2.utxos())
+    o['txs_pre'] = txs_view(st, w2, False, ids, defer=True)
+    o['pa_pre'] = '+'.join('%d.%d~%s' % (nwid(st, g[0]), g[1], utxos_view(w2.utxos(**gkw(g)))) for g in groups(st, w2))
+    o['pre_txids'] = ','.join(ids)
     del w2
+    return o
+
+
+def preread_forked(st, ids):
+    """The same reading made by another PROCESS: a forked child opens the file on its own connection."""
+    nws0 = list(st.nws)
+    r, wfd = os.pipe()
+    pid = os.fork()
+    if pid == 0:
+        try:
+            os.close(r)
+            try:
+                res = {'o': preread(st, ids), 'nws': st.nws}
+            except Exception as e:
+                res = {'err': '%s: %s' % (type(e).__name__, str(e)[:200])}
+            data = json.dumps(res).encode()
+            while data:
+                n = os.write(wfd, data)
+                data = data[n:]
+        finally:
+            os._exit(0)
+    os.close(wfd)
+    buf = b''
+    while True:
+        chunk = os.read(r, 65536)
+        if not chunk:
+            break
+        buf += chunk
+    os.close(r)
+    os.waitpid(pid, 0)
+    res = json.loads(buf.decode())
+    if 'err' in res:
+        raise RuntimeError('forked reader: ' + res['err'])
+    for n in res['nws'][len(nws0):]:
+        nwid(st, n)
+    return res['o']
+
+
+def observe(st, full):
+    st.want_pre = True
+    snap(st)
+    o, st.pre, st.want_pre = st.pre, None, False
+    o['txs_pre'] = re.sub(r'@([^@/]*)@', lambda m: str(st.addr.get(m.group(1), '-')), o['txs_pre'])
     w = st.w
     b = w.balance()
     o['bal'] = str(int(b))
@@ -278,8 +391,10 @@ def created_ops(st, t, mops, minconf, g):
 def store_op(st, t, sent, mops):
     """The transaction row is filed where the library files it (t.account_id)."""
     ins, outs, raw = tx_tokens(st, t)
-    st.txids.add(t.txid)
+    touch(st, t.txid)
     if sent:
+        for i in t.inputs:
+            touch(st, i.prev_txid.hex())
         # the bytes that actually went to the network (send() pushes raw_hex() of the object as it is then)
         if not hasattr(st, 'pushed'):
             st.pushed = {}
@@ -291,8 +406,28 @@ def store_op(st, t, sent, mops):
                                                t.confirmations or 0, ins, outs, raw))
 
 
-def do_op(st, tok):
+def held_elsewhere(st, txid):
+    """Another wallet of the file holds a transaction with this id (asked through a throw-away Wallet object)."""
+    for x in st.wallets:
+        if x is not st and open_wallet(x).transaction(txid) is not None:
+            return True
+    return False
+
+
+def finish_created(st, t, bc, mops, mc, g):
+    created_ops(st, t, mops, mc, g)
+    st.created.append(t)
+    if bc:
+        if t.pushed:
+            store_op(st, t, True, mops)
+            return None
+        return 'notpushed:' + str(t.error)
+    return None
+
+
+def do_op(st, tok, quiet=False):
     w = st.w
+    st.pre, st.want_pre = None, not quiet
     a = tok.split(':')
     k = a[0]
     mops = []
@@ -320,6 +455,7 @@ def do_op(st, tok):
                 kid = st.akeys[int(a[1]) % len(st.akeys)]
                 acct, nets = st.keys[kid][1], [st.keys[kid][3]]      # utxos_update(key_id=..): the key's group
                 w.utxos_update(key_id=kid)
+                touch_log(st)
             else:
                 g = pick_group(st, a, 1)
                 kw = {} if g is None else {'account_id': g[1]}
@@ -330,6 +466,7 @@ def do_op(st, tok):
                 if k == 'un':
                     kw['rescan_all'] = False
                 w.utxos_update(**kw)
+                touch_log(st)
                 acct = 0 if g is None else g[1]          # _get_account_defaults('', None): account 0
             refresh_keys(st, mops)
             mops += u_ops(st, k == 'uu', nets, acct, kid)
@@ -341,12 +478,13 @@ def do_op(st, tok):
             if k == 'ua' and not home:
                 txid = pool_txid(1000 * nwid(st, knw) + 100 * kacct + int(a[3]))    # a transaction of that group only
             first = ['%d/%s/%d/%d/%d' % (kid, txid, n, value, conf)]
-            st.txids.add(txid)
+            touch(st, txid)
             if k == 'uA' or home:
                 # utxo_add has no account / network parameter: the library decides where the transaction row is
                 # filed, and its utxos_update loops over every network of the wallet
                 nets = w.network_list()
                 w.utxo_add(addr, value, txid, n, conf)
+                touch_log(st)
                 facct = 0 if home else filed_account(st, txid, knw)
                 mops += u_ops(st, False, nets, facct, None, first)
             else:
@@ -367,6 +505,7 @@ def do_op(st, tok):
                 try:
                     t = w.send_to(dest_addr(st, dest, g), amount, broadcast=bc, min_confirms=mc,
                                   priv_keys=st.privs, **kw)
+                    note_tx(st, t, bc)
                 finally:
                     refresh_keys(st, mops)
             else:
@@ -383,34 +522,77 @@ def do_op(st, tok):
                             t.send()
                     else:
                         t = w.sweep(dest_addr(st, dest, g), broadcast=bc, min_confirms=mc, **kw)
+                    note_tx(st, t, bc)
                 finally:
                     refresh_keys(st, mops)
-            created_ops(st, t, mops, mc, g)
-            st.created.append(t)
-            if bc:
-                if t.pushed:
-                    store_op(st, t, True, mops)
+            err = finish_created(st, t, bc, mops, mc, g)
+        elif k == 'sk':
+            # send_to(.., input_key_id=..): only the unspent outputs of one key may be selected
+            kid = st.akeys[int(a[1]) % len(st.akeys)]
+            dest, permille, bc, mc = a[2], int(a[3]), a[4] == '1', int(a[5])
+            g = (st.keys[kid][3], st.keys[kid][1])
+            kw = gkw(g)
+            avail = sum(u['value'] for u in w.utxos(min_confirms=mc, key_id=kid, **kw))
+            if not avail:
+                err = 'skip'
+            else:
+                amount = max(1000, avail * permille // 1000)
+                try:
+                    t = w.send_to(dest_addr(st, dest, g), amount, input_key_id=kid, broadcast=bc, min_confirms=mc,
+                                  priv_keys=st.privs, **kw)
+                    note_tx(st, t, bc)
+                finally:
+                    refresh_keys(st, mops)
+                err = finish_created(st, t, bc, mops, mc, g)
+        elif k == 'si':
+            # send(.., input_arr=[one unspent output chosen by the caller], fee=..)
+            dest, permille, bc = a[2], int(a[3]), a[4] == '1'
+            g = (NW, w.default_account_id)
+            ul = sorted(w.utxos(min_confirms=0), key=lambda u: (u['txid'], u['output_n']))
+            if not ul:
+                err = 'skip'
+            else:
+                u = ul[int(a[1]) % len(ul)]
+                fee = 2000
+                amount = max(600, min(u['value'] - fee, u['value'] * permille // 1000))
+                if amount + fee > u['value']:
+                    err = 'skip'
                 else:
-                    err = 'notpushed:' + str(t.error)
+                    try:
+                        t = w.send([(dest_addr(st, dest, g), amount)], input_arr=[(u['txid'], u['output_n'])], fee=fee,
+                                   broadcast=bc, priv_keys=st.privs)
+                        note_tx(st, t, bc)
+                    finally:
+                        refresh_keys(st, mops)
+                    err = finish_created(st, t, bc, mops, 0, g)
         elif k in ('bc', 'ps'):
             if not st.created:
                 err = 'skip'
             else:
                 t = st.created[int(a[1]) % len(st.created)]
                 if k == 'bc':
+                    if st.privs and not t.verified:
+                        t.sign(st.privs)                  # a transaction imported from the cosigner's wallet
                     t.send()
+                    note_tx(st, t, True)
+                    snap(st)
                     if t.pushed and not t.error:
                         store_op(st, t, True, mops)
                     else:
                         err = 'notpushed:' + str(t.error)
                 else:
                     t.store()
+                    note_tx(st, t, False)
+                    snap(st)
                     store_op(st, t, False, mops)
-        elif k in ('im', 'iM'):
+        elif k in ('im', 'iM', 'iw'):
             # transaction_import has no account parameter (the result belongs to the default account): 'im' takes
-            # a created transaction of the default account, 'iM' any
-            pool = [t for t in st.created if t.network.name == NW and
-                    (k == 'iM' or t.account_id == w.default_account_id)]
+            # a created transaction of the default account, 'iM' any, 'iw' one created by another wallet of the file
+            if k == 'iw':
+                pool = [t for x in st.wallets if x is not st for t in x.created if t.network.name == NW]
+            else:
+                pool = [t for t in st.created if t.network.name == NW and
+                        (k == 'iM' or t.account_id == w.default_account_id)]
             if not pool:
                 err = 'skip'
             else:
@@ -425,24 +607,39 @@ def do_op(st, tok):
                 err = 'skip'
             else:
                 st.created.append(t)
-        elif k == 'de':
-            ids = sorted(st.txids)
+        elif k in ('de', 'dl'):
+            # de: the i-th known transaction id; dl: the i-th most recent transaction this wallet created / imported
+            ids = sorted(st.txids) if k == 'de' else [t.txid for t in reversed(st.created)]
             if not ids:
                 err = 'skip'
             else:
                 txid = ids[int(a[1]) % len(ids)]
                 present = w.transaction(txid) is not None
-                try:
-                    w.transaction_delete(txid)
-                    mops.append('D:' + txid)
-                except WalletError as e:
-                    err = 'ERR ' + ('absent' if not present else str(e)[:60])
+                if present and len(st.wallets) > 1 and not st.shared_delete and held_elsewhere(st, txid):
+                    err = 'skip:shared'
+                else:
+                    try:
+                        w.transaction_delete(txid)
+                        touch(st, txid)
+                        snap(st)
+                        mops.append('D:' + txid)
+                    except WalletError as e:
+                        err = 'ERR ' + ('absent' if not present else str(e)[:60])
+                    except Exception as e:
+                        if present and type(e).__name__ == 'MultipleResultsFound':
+                            # delete() found the rows of two wallets: nothing was changed
+                            st.w.session.rollback()
+                            err = 'ERR refused MultipleResultsFound'
+                            mops.append('D:' + txid)
+                        else:
+                            raise
         elif k == 'ro':
             st.w = None
             st.created = []
             del w
             gc.collect()
             st.w = open_wallet(st)
+            snap(st)
             mops.append('R')
         else:
             err = 'badop'
@@ -453,25 +650,30 @@ def do_op(st, tok):
     return pre + mops if k in ('nk', 'gk', 'na', 'nn') else mops + pre, err
 
 
-def run_history(kind, hid, ops):
-    st = St()
-    st.name = 'w'
-    st.privs = None
-    fn = os.path.join(os.getcwd(), 'c08_%d_%s.db' % (os.getpid(), hid))
-    for f in (fn,):
-        if os.path.exists(f):
-            os.remove(f)
-    st.uri = 'sqlite:///' + fn
-    random.seed(int(hashlib.sha256(('c08' + hid).encode()).hexdigest()[:12], 16))
-    wt = WT[kind]
+def seed_of(hid, how='main'):
     seed = hashlib.sha256(('c08-key-' + hid).encode()).digest()
+    return seed if how != 'o' else hashlib.sha256(seed + b'other').digest()
+
+
+def create_wallet(sh, kind, hid, how):
+    """A wallet in the file sh.uri.  how: main | s (same keys, second name) | o (unrelated seed) | c (cosigner)."""
+    st = St()
+    st.wid = len(sh.wallets)
+    st.name = 'w' if st.wid == 0 else 'w%d' % st.wid
+    st.uri, st.txids, st.nws, st.ext, st.wallets = sh.uri, sh.txids, sh.nws, sh.ext, sh.wallets
+    st.fork, st.shared_delete = sh.fork, sh.shared_delete
+    st.privs = None
+    wt = WT[kind]
+    seed = seed_of(hid, how)
     if kind == 'ms':
         # 2-of-2: this wallet holds one private key, the cosigner's private key is passed when signing
         k1 = HDKey.from_seed(seed, network=NW, witness_type=wt, multisig=True)
         k2 = HDKey.from_seed(hashlib.sha256(seed).digest(), network=NW, witness_type=wt, multisig=True)
-        w = Wallet.create(st.name, keys=[k1, k2.public_master(multisig=True)], sigs_required=2, network=NW,
-                          witness_type=wt, db_uri=st.uri)
-        st.privs = [k2]
+        if how == 'c':
+            keys, st.privs = [k1.public_master(multisig=True), k2], [k1]
+        else:
+            keys, st.privs = [k1, k2.public_master(multisig=True)], [k2]
+        w = Wallet.create(st.name, keys=keys, sigs_required=2, network=NW, witness_type=wt, db_uri=st.uri)
         w.new_key()
     elif kind == 'single':
         w = Wallet.create(st.name, keys=HDKey.from_seed(seed, network=NW, witness_type=wt, key_type='single'),
@@ -480,26 +682,80 @@ def run_history(kind, hid, ops):
         w = Wallet.create(st.name, keys=HDKey.from_seed(seed, network=NW, witness_type=wt), network=NW,
                           witness_type=wt, db_uri=st.uri)
     st.w = w
-    st.keys, st.addr, st.akeys, st.txids, st.created = {}, {}, [], set(), []
-    st.nws = [w.network.name]
-    st.ext = {n: HDKey.from_seed(b'\x07' * 32, network=n, witness_type=wt).address() for n in (NW, NW2)}
-    init = []
+    st.keys, st.addr, st.akeys, st.created, st.touched = {}, {}, [], [], set()
+    st.pre, st.want_pre = None, False
+    sh.wallets.append(st)
+    init = ['W:%d:0:%d:%d' % (st.wid, w.default_account_id, 1 if w.scheme == 'bip32' else 0)]
     refresh_keys(st, init)
-    res = {'kind': kind, 'hid': hid, 'acct': w.default_account_id, 'bip32': w.scheme == 'bip32',
-           'steps': [{'op': 'create', 'mops': init, 'err': None, 'obs': observe(st, False)}]}
-    for i, tok in enumerate(ops):
+    return st, init
+
+
+def run_history(kindf, hid, ops):
+    kind, _, flags = kindf.partition('+')
+    sh = St()
+    fn = os.path.join(os.getcwd(), 'c08_%d_%s.db' % (os.getpid(), hid))
+    for f in (fn,):
+        if os.path.exists(f):
+            os.remove(f)
+    sh.uri = 'sqlite:///' + fn
+    sh.txids, sh.nws, sh.wallets = set(), [NW], []
+    sh.fork, sh.shared_delete = 'f' in flags, 'x' in flags
+    MULTI_OUT[0] = 'm' in flags
+    ADDRN.clear()
+    random.seed(int(hashlib.sha256(('c08' + hid).encode()).hexdigest()[:12], 16))
+    wt = WT[kind]
+    sh.ext = {n: HDKey.from_seed(b'\x07' * 32, network=n, witness_type=wt).address() for n in (NW, NW2)}
+    st, init = create_wallet(sh, kind, hid, 'main')
+    w0 = st.w
+    res = {'kind': kindf, 'hid': hid, 'acct': st.w.default_account_id, 'bip32': st.w.scheme == 'bip32',
+           'steps': [{'op': 'create', 'wid': 0, 'mops': init, 'err': None, 'obs': observe(st, False)}]}
+    last = 0             # the wallet the model speaks about
+
+    def sw(wid):
+        nonlocal last
+        r = ['@:%d' % wid] if wid != last else []
+        last = wid
+        return r
+
+    for i, tok0 in enumerate(ops):
+        quiet = tok0.endswith('!')
+        tok = tok0[:-1] if quiet else tok0
+        a = tok.split(':')
         try:
-            mops, err = do_op(st, tok)
-            ob = observe(st, tok == 'ro' or i == len(ops) - 1)
-            res['steps'].append({'op': tok, 'mops': mops, 'err': err, 'obs': ob})
+            if a[0] == 'w':
+                # the following operations go to another wallet of the file
+                st = sh.wallets[int(a[1]) % len(sh.wallets)]
+                res['steps'].append({'op': tok0, 'wid': st.wid, 'mops': [], 'err': None, 'obs': 'skip'})
+                continue
+            if a[0] == 'nw':
+                if len(sh.wallets) >= MAX_WALLETS:
+                    res['steps'].append({'op': tok0, 'wid': st.wid, 'mops': [], 'err': 'skip', 'obs': 'skip'})
+                    continue
+                st, mops = create_wallet(sh, kind, hid, a[1] if len(a) > 1 else 's')
+                last = st.wid
+                err = None
+            else:
+                mops, err = do_op(st, tok, quiet)
+                mops = sw(st.wid) + mops
+            if quiet:
+                res['steps'].append({'op': tok0, 'wid': st.wid, 'mops': mops, 'err': err, 'obs': 'skip'})
+                continue
+            full = tok == 'ro' or i == len(ops) - 1
+            res['steps'].append({'op': tok0, 'wid': st.wid, 'mops': mops, 'err': err, 'obs': observe(st, full)})
+            for x in sh.wallets:
+                if x is not st:
+                    res['steps'].append({'op': '@obs', 'wid': x.wid, 'mops': sw(x.wid), 'err': None,
+                                         'obs': observe(x, False)})
         except Exception as e:
             import traceback
-            res['steps'].append({'op': tok, 'mops': [], 'err': 'CRASH %s: %s' % (type(e).__name__, str(e)[:200]),
+            res['steps'].append({'op': tok0, 'wid': st.wid, 'mops': [], 'err': 'CRASH %s: %s' % (type(e).__name__, str(e)[:200]),
                                  'obs': None, 'tb': traceback.format_exc()[-600:]})
             break
-    st.w = None
-    st.created = []
-    del w
+    for x in sh.wallets:
+        x.w = None
+        x.created = []
+    st = None
+    del w0
     gc.collect()
     try:
         os.remove(fn)
